@@ -389,6 +389,14 @@ Definition readdir_backend (s : vfs) (plus : bool) (idx : N) (a : ans) (offset :
 Definition gate_closed (s : vfs) (g : N) : bool :=
   if g =? 1 then o_no_open (v_opts s) else if g =? 2 then o_no_opendir (v_opts s) else false.
 
+(* Vfs::forget of one inode: (panicked, events) *)
+Definition forget_one (s : vfs) (c : ctx) (ino : N) : bool * list event :=
+  match get_real_rootfs s ino with
+  | Ok (SRight b idx id) => (false, [evc b m_forget (ino_of id) 0 c])
+  | Panic => (true, [])
+  | _ => (false, [])
+  end.
+
 (* one FileSystem method of Vfs, with the (already remapped) context *)
 Definition vfs_op (s : vfs) (c : ctx) (o : op) (a : ans) : outcome reply * list event :=
   match o with
@@ -407,13 +415,9 @@ Definition vfs_op (s : vfs) (c : ctx) (o : op) (a : ans) : outcome reply * list 
     | _ => (Ok (RUnit 0), [])
     end
   | OBatchForget i1 i2 =>                            (* trait default: forget each *)
-    let f ino := match get_real_rootfs s ino with
-                 | Ok (SRight b idx id) => (false, [evc b m_forget (ino_of id) 0 c])
-                 | Panic => (true, [])
-                 | _ => (false, [])
-                 end in
-    let '(p1, e1) := f i1 in
-    if p1 then (Panic, e1) else let '(p2, e2) := f i2 in if p2 then (Panic, e1 ++ e2) else (Ok (RUnit 0), e1 ++ e2)
+    let '(p1, e1) := forget_one s c i1 in
+    if p1 then (Panic, e1)
+    else let '(p2, e2) := forget_one s c i2 in if p2 then (Panic, e1 ++ e2) else (Ok (RUnit 0), e1 ++ e2)
   | OGetattr ino =>
     match get_real_rootfs s ino with
     | Ok (SLeft id) => (bind (ps_getattr (v_ps s) (ino_of id)) (fun i => Ok (RAttr (pseudo_attr i))), [])
